@@ -6,19 +6,19 @@ import os
 VERIF = os.path.dirname(os.path.dirname(os.path.abspath(__file__)))
 TECH = 'machine-checked proof in Coq 8.16 (model + theorems) + fail-closed translator + model/implementation correspondence'
 ORACLES = {
-    'C01': 'multi-field requests on one pipeline object in several orders against single-field values',
-    'C02': 'multi-field request order; every operand observed before and after composing',
-    'C03': 'key mappings of Join / GroupBy / Split computed once per pipeline object; HashDigest executes exactly what get_hash executes; one and two cached columns: no function twice per call beyond findings F9 / F10; a decorated function runs once per call; request sequences through CacheColumns against Model/Columns.v (calls of the user functions in order)',
+    'C01': 'multi-field requests on one pipeline object in several orders against single-field values; optional stacks below a missing root: asking for a left-out field raises FieldError / AttributeError only',
+    'C02': 'multi-field request order; every operand observed before and after composing; a layer redefining id; instances created one after the other with ==-equal arguments',
+    'C03': 'key mappings of Join / GroupBy / Split computed once per pipeline object; HashDigest executes exactly what get_hash executes; one and two cached columns: no function twice per call beyond findings F9 / F10; a decorated function runs once per call; request sequences through CacheColumns against Model/Columns.v (calls of the user functions in order); one multi-field request (also through layer(key)[fields]) runs no function twice; a Join over one Merge object used on both sides',
     'C04': 'every call of every history against the cache-free pipeline, column-cache histories and id-order variants included; request sequences through CacheColumns (failing functions, unknown keys, rebuilt pipelines) against Model/Columns.v',
-    'C05': 'families of dataset pipelines differing in one ingredient: equal node-hash digests mean equal values; a column cache and a disk cache of a dependent field over the same folders in both orders (finding F11)',
-    'C06': 'families of sub-pipeline variants: equal static hashes / node-hash digests mean equal functions / values',
-    'C07': 'digests of a field and of ids under 14 neutral rewrites in 3 interpreters; a column cache is found again by a rebuilt pipeline whose dataset lists its ids in another order',
-    'C08': 'table sizes and recency after every operation (stored None values and pickle round trips included); key mappings computed once; a column-cache hit runs nothing; column caches found again by a rebuilt pipeline',
-    'C09': 'operands unchanged by composing; instances of one class independent; every bracketing gives the same pipeline',
-    'C10': 'the three entry points agree; every function, the decorated one included, runs once per call',
-    'C11': 'every 2-thread schedule of bounded length (column caches included) gives the sequential results; tables touched and replaced under their lock only; first calls of two threads raced at line granularity',
-    'C12': 'every crash point x fault set: later processes return the cache-free values, recompute at most once, store again',
-    'C13': 'the accept / reject outcome does not depend on how the same layers are combined or reused',
+    'C05': 'families of dataset pipelines differing in one ingredient: equal node-hash digests mean equal values; a column cache and a disk cache of a dependent field over the same folders in both orders (finding F11); one CacheToDisk object behind look-alike constants; Silent keyword bindings; the methods of one External object (F12, fixed)',
+    'C06': 'families of sub-pipeline variants: equal static hashes / node-hash digests mean equal functions / values; functions under functools.wraps decorators; array constants of different shape',
+    'C07': 'digests of a field and of ids under 14 neutral rewrites in 3 interpreters; a column cache is found again by a rebuilt pipeline whose dataset lists its ids in another order; disk and column caches filled under one PYTHONHASHSEED and read under others',
+    'C08': 'table sizes and recency after every operation (stored None values and pickle round trips included); key mappings computed once; a column-cache hit runs nothing; column caches found again by a rebuilt pipeline; disk and column caches filled under one PYTHONHASHSEED and read under others',
+    'C09': 'operands unchanged by composing; instances of one class independent; every bracketing gives the same pipeline; one CacheToRam / LazyChain object used several times',
+    'C10': 'the three entry points agree; every function, the decorated one included, runs once per call; layers written as class bodies with positional-only inverse arguments',
+    'C11': 'every 2-thread schedule of bounded length (column caches included) gives the sequential results; tables touched and replaced under their lock only; first calls of two threads raced at line granularity; merged datasets with a cached field over two merged fields; values without __eq__; two later calls raced line by line inside the files that hold shared state',
+    'C12': 'every crash point x fault set: later processes return the cache-free values, recompute at most once, store again; column request sequences with interrupted user functions',
+    'C13': 'the accept / reject outcome does not depend on how the same layers are combined or reused; cache names given as a bare string; an impure value reaching a keyed field through a Silent argument only',
     'C14': 'owner-only evaluation; hash-collision families', 'C15': 'other fields untouched; a Filter object follows the dataset it is connected to; hash-collision families',
     'C16': 'no field value (not even None) for an id outside the join; hash-collision families', 'C17': 'key mappings computed once; hash-collision families',
     'C18': 'the error is repeatable; targeted optional chains ending in caches',
